@@ -172,23 +172,69 @@ func (e *Engine) verifyFuncMode(fn *ssa.Function, cfg SolverCfg, mode string) *F
 		res.Callees = append(res.Callees, k)
 	}
 	sort.Strings(res.Callees)
-	// main pass
+	// main pass: all obligations in one incremental script; large functions are cut into contiguous chunks that
+	// run in parallel (each chunk assumes the obligations before it, exactly as the single script does)
 	script, checked := vc.buildScript(false)
 	file := writeFile(cfg.WorkDir, base+".all.smt2", script)
 	incT := 1500
 	if cfg.TimeoutMS < incT {
 		incT = cfg.TimeoutMS
 	}
-	hard := time.Duration(incT*len(checked)+20000) * time.Millisecond
-	if hard > 15*time.Minute {
-		hard = 15 * time.Minute
-	}
 	var rs []string
 	secs := 0.0
-	if len(checked) > 0 && !vc.ringMode { // ring mode: only the sliced, read-expanded single queries are tractable
+	nchunks := 1
+	if len(checked) >= 80 {
+		nchunks = len(checked) / 40
+		if nchunks > 6 {
+			nchunks = 6
+		}
+	}
+	switch {
+	case len(checked) == 0 || vc.ringMode: // ring mode: only the sliced, read-expanded single queries are tractable
+	case nchunks == 1:
+		hard := time.Duration(incT*len(checked)+20000) * time.Millisecond
+		if hard > 15*time.Minute {
+			hard = 15 * time.Minute
+		}
 		var out string
 		out, secs = runSolver(solvers[0], file, incT, hard)
 		rs = parseResults(out)
+	default:
+		per := (len(checked) + nchunks - 1) / nchunks
+		parts := make([][]string, nchunks)
+		times := make([]float64, nchunks)
+		var wg sync.WaitGroup
+		for c := 0; c < nchunks; c++ {
+			from, to := c*per, (c+1)*per
+			if to > len(checked) {
+				to = len(checked)
+			}
+			if from >= to {
+				continue
+			}
+			sc, chk := vc.buildScriptRange(false, from, to)
+			f := writeFile(cfg.WorkDir, fmt.Sprintf("%s.all%d.smt2", base, c), sc)
+			wg.Add(1)
+			go func(c int, f string, n int) {
+				defer wg.Done()
+				hard := time.Duration(incT*n+20000) * time.Millisecond
+				out, t := runSolver(solvers[0], f, incT, hard)
+				r := parseResults(out)
+				for len(r) < n {
+					r = append(r, "unknown")
+				}
+				parts[c] = r[:n]
+				times[c] = t
+				if os.Getenv("GOVC_KEEP") == "" {
+					os.Remove(f)
+				}
+			}(c, f, len(chk))
+		}
+		wg.Wait()
+		for c := 0; c < nchunks; c++ {
+			rs = append(rs, parts[c]...)
+			secs += times[c]
+		}
 	}
 	ci := 0
 	per := 0.0
